@@ -82,17 +82,17 @@ def gen_overlay():
             sys.stdout.write("HARNESS-ERROR overlay target exists in repo: %s\n" % dst)
             sys.exit(3)
     d = bdir()
-    p = os.path.join(d, "overlay.json")
+    p = os.path.join(d, "overlay.%d.json" % os.getpid())
     with open(p, "w") as f:
         json.dump({"Replace": repl}, f, indent=0)
     # alternative go.mod with porcupine
     mod = open(os.path.join(REPO, "go.mod")).read()
     if "anishathalye/porcupine" not in mod:
         mod += "\nrequire github.com/anishathalye/porcupine v1.3.0\n"
-    mp = os.path.join(d, "pebble.go.mod")
+    mp = os.path.join(d, "pebble.%d.go.mod" % os.getpid())
     with open(mp, "w") as f:
         f.write(mod)
-    shutil.copyfile(os.path.join(REPO, "go.sum"), os.path.join(d, "pebble.go.sum"))
+    shutil.copyfile(os.path.join(REPO, "go.sum"), os.path.join(d, "pebble.%d.go.sum" % os.getpid()))
     return p, mp
 
 
@@ -104,17 +104,29 @@ VARIANTS = {
 }
 
 
+def pkgname(pkg):
+    pkg = pkg.strip("/")
+    while pkg.startswith("./"):
+        pkg = pkg[2:]
+    return "" if pkg == "." else pkg
+
+
 def binpath(pkg, variant):
-    return os.path.join(bdir(), "bin", pkg.strip("./").replace("/", "_") + "." + variant + ".test")
+    return os.path.join(bdir(), "bin", (pkgname(pkg).replace("/", "_") or "root") + "." + variant + ".test")
 
 
 def build(pkg, variant, quiet=False):
     overlay, modfile = gen_overlay()
     out = binpath(pkg, variant)
     cmd = ["go", "test", "-c", "-o", out, "-vet=off", "-overlay=" + overlay, "-modfile=" + modfile]
-    cmd += VARIANTS[variant] + ["./" + pkg.strip("./") + "/"]
+    cmd += VARIANTS[variant] + ["./" + pkgname(pkg)]
     t0 = time.time()
     p = subprocess.run(cmd, cwd=REPO, env=go_env(), stdout=subprocess.PIPE, stderr=subprocess.STDOUT, text=True)
+    for tmp in (overlay, modfile, modfile[:-4] + ".sum"):
+        try:
+            os.remove(tmp)
+        except OSError:
+            pass
     if p.returncode != 0 or not os.path.exists(out):
         sys.stdout.write("BUILD-FAILED pkg=%s variant=%s\n%s\n" % (pkg, variant, p.stdout[-6000:]))
         return None
